@@ -19,7 +19,7 @@ Chars(s) ==   \* the literal tokens and the tiny strings used by the shapes, as 
     [] s = "p" -> <<"p">> [] s = "a" -> <<"a">> [] s = "ab" -> <<"a", "b">>
     [] s = "dk" -> <<"d", "k">> [] s = "dv" -> <<"d", "v">> [] s = "db" -> <<"d", "b">>
     [] s = "k" -> <<"k">> [] s = "v" -> <<"v">> [] s = "b" -> <<"b">> [] s = "e" -> <<"e">> [] s = "w" -> <<"w">>
-    [] s = "dc" -> <<"d", "c">> [] s = "oc" -> <<"o", "c">>
+    [] s = "dc" -> <<"d", "c">> [] s = "oc" -> <<"o", "c">> [] s = "d2" -> <<"d", "2">> [] s = "v2" -> <<"v", "2">> [] s = "v3" -> <<"v", "3">>
     [] s = "1" -> <<"1">> [] s = "-1" -> <<"-", "1">> [] s = "4" -> <<"4">> [] s = "5" -> <<"5">> [] s = "6" -> <<"6">>
     [] s = "4.5" -> <<"4", ".", "5">> [] s = "5.5" -> <<"5", ".", "5">> [] s = "6.5" -> <<"6", ".", "5">>
     [] s = "0.5" -> <<"0", ".", "5">> [] s = "7" -> <<"7">>
@@ -48,8 +48,13 @@ VShapes(e) == IF IsVec(e) THEN {"p0", "p1", "p2", "p3"} ELSE {"single"}
 Opts == {"rate", "tags", "cid", "ts"}
 \* prefix shapes: "", "p", "p.", "p..", ".."  as <<base, trailing dots>>
 Prefixes == {<<"", 0>>, <<"p", 0>>, <<"p", 1>>, <<"p", 2>>, <<"", 2>>}
-DTagLists == {<<>>, <<"dkv">>, <<"dbare">>, <<"dkv", "dbare">>, <<"dbare", "dkv">>}
-CTagLists == {<<>>, <<"kv">>, <<"bare", "kv2">>}
+\* (dkv_b repeats the KEY of dkv with another value; kv_b repeats the key of kv; dkv_c is a call tag with a default tag's key:
+\*  every one of them must be carried, nothing is merged or overwritten)
+DTagLists == {<<>>, <<"dkv">>, <<"dbare">>, <<"dkv", "dbare">>, <<"dbare", "dkv">>, <<"dkv", "dbare", "dkv_b">>}
+CTagLists == {<<>>, <<"kv">>, <<"bare", "kv2">>, <<"kv", "kv_b", "dkv_c">>}
+\* what the sink answers: accept, or refuse with an io::ErrorKind
+RefuseKinds == {"refuse-ConnectionRefused", "refuse-Interrupted", "refuse-WouldBlock", "refuse-TimedOut", "refuse-BrokenPipe",
+                "refuse-Other", "refuse-WriteZero", "refuse-UnexpectedEof"}
 
 Shape(e, form, opts, p, vs, dt, dcid, key, ct, sink) ==
   [e |-> e, form |-> form, opts |-> opts, base |-> p[1], ndots |-> p[2], vshape |-> vs, dtags |-> dt, dcid |-> dcid,
@@ -70,8 +75,8 @@ G2 == UNION {{Shape(e, f, (IF ct # <<>> THEN {"tags"} ELSE {}) \cup (IF cont \in
 G2p == UNION {{Shape(e, "plain", {}, <<"p", 0>>, IF IsVec(e) THEN "p2" ELSE "single", dt, dc, "a", <<>>, "accept") :
                  dt \in DTagLists, dc \in BOOLEAN} : e \in Entries}
 \* C03: the sink refuses
-G3 == {Shape(e, f, {}, <<"p", 0>>, IF IsVec(e) THEN "p1" ELSE "single", <<>>, FALSE, "a", <<>>, "refuse") :
-         e \in Entries, f \in {"plain", "tagged", "quiet"}}
+G3 == {Shape(e, f, {}, <<"p", 0>>, IF IsVec(e) THEN "p1" ELSE "single", <<>>, FALSE, "a", <<>>, k) :
+         e \in Entries, f \in {"plain", "tagged", "quiet"}, k \in RefuseKinds}
 \* C17: the macros = tagged quiet send on the global client with key => value tags
 GM == UNION {{Shape(e, "macro", IF ct # <<>> THEN {"tags"} ELSE {}, <<"p", 1>>, IF IsVec(e) THEN vs ELSE "single", dt, dc, "a", ct, "accept") :
                  vs \in {"p0", "p2"}, dt \in {<<>>, <<"dkv", "dbare">>}, dc \in BOOLEAN,
@@ -84,6 +89,9 @@ TagOf(n) == CASE n = "dkv"   -> [bare |-> FALSE, k |-> Chars("dk"), v |-> Chars(
               [] n = "kv"    -> [bare |-> FALSE, k |-> Chars("k"), v |-> Chars("v")]
               [] n = "bare"  -> [bare |-> TRUE,  k |-> <<>>, v |-> Chars("b")]
               [] n = "kv2"   -> [bare |-> FALSE, k |-> Chars("e"), v |-> Chars("w")]
+              [] n = "dkv_b" -> [bare |-> FALSE, k |-> Chars("dk"), v |-> Chars("d2")]
+              [] n = "kv_b"  -> [bare |-> FALSE, k |-> Chars("k"), v |-> Chars("v2")]
+              [] n = "dkv_c" -> [bare |-> FALSE, k |-> Chars("dk"), v |-> Chars("v3")]
 Tags(ns) == [i \in 1..Len(ns) |-> TagOf(ns[i])]
 NVals(vs) == CASE vs = "single" -> 1 [] vs = "p0" -> 0 [] vs = "p1" -> 1 [] vs = "p2" -> 2 [] vs = "p3" -> 3
 ValTok(e, i) == CASE Class(e) = "incr" -> "1" [] Class(e) = "decr" -> "-1"
@@ -95,7 +103,8 @@ Valid(x) == NVals(x.vshape) > 0          \* at least one value: an empty packed 
 Cfg(x)  == [hasprefix |-> (x.base # "" \/ x.ndots > 0), base |-> Chars(x.base), dtags |-> Tags(x.dtags),
             dcid |-> [has |-> x.dcid, v |-> IF x.dcid THEN Chars("dc") ELSE <<>>]]
 Call(x) == [key |-> Chars(x.key), vals |-> Vals(x), kind |-> Kind(x.e),
-            rate |-> [has |-> "rate" \in x.opts, v |-> IF "rate" \in x.opts THEN Chars("0.5") ELSE <<>>],
+            \* two rate values: 0.5, and 1 (supplied explicitly, must still be written) when a timestamp is supplied too
+            rate |-> [has |-> "rate" \in x.opts, v |-> IF "rate" \in x.opts THEN (IF "ts" \in x.opts THEN Chars("1") ELSE Chars("0.5")) ELSE <<>>],
             tags |-> Tags(x.ctags),
             cid  |-> [has |-> "cid" \in x.opts, v |-> IF "cid" \in x.opts THEN Chars("oc") ELSE <<>>],
             ts   |-> [has |-> "ts" \in x.opts, v |-> IF "ts" \in x.opts THEN Chars("7") ELSE <<>>]]
